@@ -102,12 +102,29 @@ def r6(fx):
             yield ob(f'{name}: scale={scale} border={border}', got == want, fx.fn('utils', name), got=got, want=want)
     # QRCode.matrix_iter dispatch
     q = fx.fn('__init__', 'QRCode.matrix_iter')
-    r = single([s for s in q.body if isinstance(s, ast.Return)], 'return of QRCode.matrix_iter')
-    a = single([s for s in q.body if isinstance(s, ast.Assign)], 'iterfn selection')
-    okq = nf.same(a.value, 'utils.matrix_iter_verbose if verbose else utils.matrix_iter') and \
-        pat.match(r.value, 'iterfn(self.matrix, self._matrix_size, scale, border)') is not None
-    yield ob('QRCode.matrix_iter dispatches on verbose with (matrix, size, scale, border)', okq, q, got=f'{ast.unparse(a)}; {ast.unparse(r.value)}',
-             want='utils.matrix_iter_verbose if verbose else utils.matrix_iter')
+    from ..interp import Instance
+    calls = []
+
+    def rec(name):
+        def f(*a, **k):
+            calls.append((name, a, k))
+            return f'<{name} rows>'
+        return f
+    uns = ev.Namespace('utils', {n_: rec(n_) for n_ in ('matrix_iter', 'matrix_iter_verbose')})
+    itq = Interp()
+    qenv = callable_env(fx.forest, '__init__', itq, {'utils': uns})
+    bad = []
+    for verbose in (False, True, 0, 1):
+        del calls[:]
+        qo = Instance(fx.forest, '__init__', 'QRCode', qenv, itq)
+        qo.matrix, qo._matrix_size = '<m>', (21, 21)
+        res = qo.matrix_iter(scale='<s>', border='<b>', verbose=verbose)
+        name = 'matrix_iter_verbose' if verbose else 'matrix_iter'
+        got = [(c[0], dict(zip(('matrix', 'matrix_size', 'scale', 'border'), c[1]), **c[2])) for c in calls]
+        if got != [(name, {'matrix': '<m>', 'matrix_size': (21, 21), 'scale': '<s>', 'border': '<b>'})] or res != f'<{name} rows>':
+            bad.append((verbose, got, res))
+    yield ob('QRCode.matrix_iter dispatches on verbose with (matrix, size, scale, border)', not bad, q, got=bad or 'as required',
+             want='utils.matrix_iter_verbose if verbose else utils.matrix_iter, with (self.matrix, self._matrix_size, scale, border)')
 
 
 def _classifier(fx, it, genv, n, val):
